@@ -26,7 +26,7 @@ PROPS = {
         'trusted': NUMPY_TRUST,
         'assumptions': ['NLI handed to add_nli lies in [0, channel power] (the property limits itself to launch powers '
                         'where the first-order NLI estimate stays below the channel power)'],
-        'extra': [],
+        'extra': [{'name': 'params_load', 'kind': 'bounded', 'script': 'bounded/params_load.py', 'timeout': 900}],
     },
     'C04': {
         'level': 'proof',
